@@ -44,6 +44,9 @@ def expect_out(rep: Report, rule: str, fi: FuncInfo, what: str, v: Optional[SV],
     if not isinstance(v, SV) or v.kind == "unk":
         rep.undecided(rule, fi, construct, f"could not derive the law ({v.why if isinstance(v, SV) else 'no value'})", node=node)
         return
+    if interp is not None and interp.definite:
+        rep.violation(rule, fi, construct, interp.definite[0], node=node)
+        return
     if v.kind != "out":
         rep.violation(rule, fi, construct, f"the result is not `signal + zero-mean noise` (expected factor {sig_factor.show()}, variance {var.show() if var else 'external'})", node=node)
         return
@@ -63,8 +66,9 @@ def expect_out(rep: Report, rule: str, fi: FuncInfo, what: str, v: Optional[SV],
         rep.violation(rule, fi, construct, f"total noise variance is {v.var.show()} but the configured law is {var.show()} (ratio {ratio.show()})", node=node)
 
 
-def run_fn(repo, fi, env, atoms, attr_values=None, models=None):
+def run_fn(repo, fi, env, atoms, attr_values=None, models=None, allow_floor=False):
     it = Scaling(fi, repo, config=cfg(atoms), attr_values=attr_values or {}, method_models=models or {})
+    it.allow_floor = allow_floor
     full = {p: NONE_V for p in fi.params if p != "self"}
     full.update(env)
     it.run(full)
@@ -209,7 +213,7 @@ def rule_utils(repo: Repo, rep: Report) -> int:
     v, _ = run_fn(repo, fi, {"snr_db": DBP("p")}, {})
     judge("DB-KIND", fi, "snr_db_to_linear(p)", v, "det", L("p"))
     fi = repo.func(SNRU, "snr_linear_to_db")
-    v, _ = run_fn(repo, fi, {"snr_linear": SV("det", Mono.sym("r"))}, {"isinstance(snr_linear, torch.Tensor)": False})
+    v, _ = run_fn(repo, fi, {"snr_linear": SV("det", Mono.sym("r"))}, {"isinstance(snr_linear, torch.Tensor)": False}, allow_floor=True)
     judge("DB-KIND", fi, "snr_linear_to_db(r)", v, "db", Mono.sym("r"))
     fi = repo.func(SNRU, "snr_to_noise_power")
     v, _ = run_fn(repo, fi, {"signal_power": SV("det", Mono.sym("S")), "snr_db": DBP("p")}, {})
@@ -219,7 +223,7 @@ def rule_utils(repo: Repo, rep: Report) -> int:
     judge("DB-KIND", fi, "noise_power_to_snr(S, Nn)", v, "db", Mono.sym("S") / Mono.sym("Nn"))
     fi = repo.func(SNRU, "calculate_snr")
     for cplx in (False, True):
-        v, _ = run_fn(repo, fi, {"original_signal": SV("sig", ONE, src="x"), "noisy_signal": SV("sig", ONE, src="y"), "dim": NONE_V, "keepdim": NONE_V}, {"torch.is_complex(original_signal)": cplx})
+        v, _ = run_fn(repo, fi, {"original_signal": SV("sig", ONE, src="x"), "noisy_signal": SV("sig", ONE, src="y"), "dim": NONE_V, "keepdim": NONE_V}, {"torch.is_complex(original_signal)": cplx}, allow_floor=True)
         judge("DB-KIND", fi, f"calculate_snr(x, y) ({'complex' if cplx else 'real'})", v, "db", E("x") / E("(y-x)"))
     n += 6
     fi = repo.func(SNRM, "SignalToNoiseRatio.forward")
